@@ -37,16 +37,24 @@ Definition spent_ok (prev cur : view) (p : pkey) (amt : Z) : bool :=
   (0 <=? amt) && (amt <=? amt_of prev p) && (amt_of cur p =? amt_of prev p - amt)
   && ((amt =? 0) || (lu_of cur p =? lu_of prev p)).
 
-(* why may the balance of [a] have decreased in this successful call? *)
-Definition debit_ok (prev cur : view) (cl : call) (v : Z) (a : addr) : bool :=
+(* the balance of [a] went down by at most [amt] *)
+Definition debit_le (prev cur : view) (a : addr) (amt : Z) : bool := v_bal prev a - v_bal cur a <=? amt.
+
+(* why may the balance of [a] have decreased in this successful call?  Only the account the call
+   names is debited, by at most the amount the call names (which is what the allowance is charged);
+   [rwa] = the token is the RWA flavour (trace header): only there do the supervisory operations exist. *)
+Definition debit_ok (rwa : bool) (prev cur : view) (cl : call) (v : Z) (a : addr) : bool :=
   match cl with
-  | Transfer au f _ _ _ | Burn au f _ => N.eqb a f && has_auth au f
+  | Transfer au f _ _ amt | Burn au f amt => N.eqb a f && has_auth au f && debit_le prev cur a amt
   | TransferFrom au sp f _ amt | BurnFrom au sp f amt =>
-      N.eqb a f && has_auth au sp && spent_ok prev cur (f, sp) amt
-  | VWithdraw au _ _ o op => N.eqb a o && has_auth au op && (N.eqb op o || spent_ok prev cur (o, op) v)
-  | VRedeem au sh _ o op => N.eqb a o && has_auth au op && (N.eqb op o || spent_ok prev cur (o, op) sh)
-  (* the RWA token's documented supervisory operations *)
-  | RForcedTransfer _ _ _ | RBurn _ _ | RRecover _ _ => true
+      N.eqb a f && has_auth au sp && spent_ok prev cur (f, sp) amt && debit_le prev cur a amt
+  | VWithdraw au _ _ o op =>
+      N.eqb a o && has_auth au op && (N.eqb op o || spent_ok prev cur (o, op) v) && debit_le prev cur a v
+  | VRedeem au sh _ o op =>
+      N.eqb a o && has_auth au op && (N.eqb op o || spent_ok prev cur (o, op) sh) && debit_le prev cur a sh
+  (* the RWA token's documented supervisory operations: the named account, the named amount *)
+  | RForcedTransfer f _ amt | RBurn f amt => rwa && N.eqb a f && debit_le prev cur a amt
+  | RRecover old _ => rwa && N.eqb a old
   | _ => false
   end.
 
@@ -104,9 +112,9 @@ Definition same_bal_allow (univ : list addr) (prev cur : view) : bool :=
   && forallb (same_al prev cur) (pairs univ).
 
 (* the five checks of one call *)
-Definition chk_debit (prev cur : view) (cl : call) (out : outcome) (a : addr) : bool :=
+Definition chk_debit (rwa : bool) (prev cur : view) (cl : call) (out : outcome) (a : addr) : bool :=
   if v_bal cur a <? v_bal prev a
-  then match out with Ok v => debit_ok prev cur cl v a | Fail => false end
+  then match out with Ok v => debit_ok rwa prev cur cl v a | Fail => false end
   else true.
 Definition chk_change (prev cur : view) (cl : call) (out : outcome) (p : pkey) : bool :=
   if same_al prev cur p then true
@@ -117,10 +125,10 @@ Definition chk_cap (g : ghost) (cur : view) (p : pkey) : bool :=
 Definition chk_live (cur : view) (p : pkey) : bool :=
   if 0 <? amt_of cur p then (v_now cur <=? lu_of cur p) && (lu_of cur p <=? ttl_of cur p) else true.
 
-Definition c02_checks (univ : list addr) (g : ghost) (prev cur : view) (cl : call) (out : outcome) : bool :=
+Definition c02_checks (rwa : bool) (univ : list addr) (g : ghost) (prev cur : view) (cl : call) (out : outcome) : bool :=
   (* a balance decreases only in a call authorised by the holder, or by a spender with a live,
      sufficient allowance that drops by exactly the amount (RWA supervisory calls excepted) *)
-  forallb (chk_debit prev cur cl out) univ
+  forallb (chk_debit rwa prev cur cl out) univ
   (* an allowance is created or changed only by its owner's approve, by a spend of its spender,
      or by expiry *)
   && forallb (chk_change prev cur cl out) (pairs univ)
@@ -133,53 +141,63 @@ Definition c02_checks (univ : list addr) (g : ghost) (prev cur : view) (cl : cal
   && (if needs_signer cl && is_nil_addr (call_auths cl) then same_bal_allow univ prev cur else true).
 
 Record m02 := { n_prev : obs; n_ghost : ghost }.
-Definition obs0 (start : Z) (univ : list addr) : obs :=
-  {| o_now := start; o_supply := 0; o_bal := map (fun a => (a, 0)) univ; o_allow := []; o_extra := [] |}.
-Definition m02_init (start : Z) (univ : list addr) : m02 := {| n_prev := obs0 start univ; n_ghost := ghost0 |}.
+Definition m02_init (genesis : obs) : m02 := {| n_prev := genesis; n_ghost := ghost0 |}.
 
-Definition c02_item (univ : list addr) (m : m02) (it : item) : bool * m02 :=
+Definition c02_item (rwa : bool) (univ : list addr) (m : m02) (it : item) : bool * m02 :=
   let '(cl, out, evs, cur) := it in
   let g := ghost_step (n_ghost m) cl out in
-  (c02_checks univ g (obs_view (n_prev m)) (obs_view cur) cl out
-   (* persistence: time passing alone changes nothing but expiring allowances (balances: chk_debit;
-      allowances: chk_change; the flavour's other stored state, e.g. the allow / block flags: here) *)
-   && advance_keeps_extras (n_prev m) cur cl out,
+  ((* shape of the observation, clock, getters' answers (allowance(), balance(), total_supply()), failing
+      and getter calls leave everything unchanged, time passing alone changes no balance, not the supply
+      and no flavour state (Model/FungibleObs.v) *)
+   common_ok univ (n_prev m) it
+   && c02_checks rwa univ g (obs_view (n_prev m)) (obs_view cur) cl out,
    {| n_prev := cur; n_ghost := g |}).
 
-Fixpoint c02_from (univ : list addr) (m : m02) (items : list item) (i : N) : N :=
+Fixpoint c02_from (rwa : bool) (univ : list addr) (m : m02) (items : list item) (i : N) : N :=
   match items with
   | [] => 0%N
   | it :: r =>
-      let '(ok, m') := c02_item univ m it in
-      if ok then c02_from univ m' r (N.succ i) else N.succ i
+      let '(ok, m') := c02_item rwa univ m it in
+      if ok then c02_from rwa univ m' r (N.succ i) else N.succ i
   end.
 
-(* 1-based index of the first call at which the property is false on the trace; 0 = none *)
-Definition c02_monitor (t : trace) : N := c02_from (t_univ t) (m02_init (t_start t) (t_univ t)) (t_items t) 0%N.
+Definition is_rwa (c : cfg) : bool := match c_flav c with FRwa => true | _ => false end.
+
+(* 1-based index of the first call at which the property is false on the trace; 0 = none
+   (1 also for a malformed header / genesis observation) *)
+Definition c02_monitor (t : trace) : N :=
+  if genesis_ok (t_univ t) (t_start t) (t_init t)
+  then c02_from (is_rwa (t_cfg t)) (t_univ t) (m02_init (t_init t)) (t_items t) 0%N
+  else 1%N.
 
 (* triage helper (not used by the driver): at the first failing call, which clause is false
    1 = unjustified debit, 2 = unjustified allowance change, 3 = allowance above approved-minus-spent or
    alive after the approved live_until, 4 = positive allowance expired / entry dies early,
-   5 = effect without any authorisation, 6 = a flavour getter changed across an Advance *)
-Definition c02_why_checks (univ : list addr) (g : ghost) (prev cur : view) (cl : call) (out : outcome) : N :=
-  if negb (forallb (chk_debit prev cur cl out) univ) then 1%N
+   5 = effect without any authorisation, 6 = shared clause (observation shape / unobserved address / clock /
+   failing or getter call or Advance changed something / getter answer differs from the observation),
+   9 = malformed header or genesis observation *)
+Definition c02_why_checks (rwa : bool) (univ : list addr) (g : ghost) (prev cur : view) (cl : call) (out : outcome) : N :=
+  if negb (forallb (chk_debit rwa prev cur cl out) univ) then 1%N
   else if negb (forallb (chk_change prev cur cl out) (pairs univ)) then 2%N
   else if negb (forallb (chk_cap g cur) (pairs univ)) then 3%N
   else if negb (forallb (chk_live cur) (pairs univ)) then 4%N
   else if negb (if needs_signer cl && is_nil_addr (call_auths cl) then same_bal_allow univ prev cur else true) then 5%N
   else 0%N.
-Fixpoint c02_why_from (univ : list addr) (m : m02) (items : list item) (i : N) : N * N :=
+Fixpoint c02_why_from (rwa : bool) (univ : list addr) (m : m02) (items : list item) (i : N) : N * N :=
   match items with
   | [] => (0%N, 0%N)
   | it :: r =>
-      let '(ok, m') := c02_item univ m it in
-      if ok then c02_why_from univ m' r (N.succ i)
+      let '(ok, m') := c02_item rwa univ m it in
+      if ok then c02_why_from rwa univ m' r (N.succ i)
       else let '(cl, out, evs, cur) := it in
            (N.succ i,
-            let w := c02_why_checks univ (ghost_step (n_ghost m) cl out) (obs_view (n_prev m)) (obs_view cur) cl out in
-            if N.eqb w 0 then 6%N else w)
+            if negb (common_ok univ (n_prev m) it) then 6%N
+            else c02_why_checks rwa univ (ghost_step (n_ghost m) cl out) (obs_view (n_prev m)) (obs_view cur) cl out)
   end.
-Definition c02_why (t : trace) : N * N := c02_why_from (t_univ t) (m02_init (t_start t) (t_univ t)) (t_items t) 0%N.
+Definition c02_why (t : trace) : N * N :=
+  if genesis_ok (t_univ t) (t_start t) (t_init t)
+  then c02_why_from (is_rwa (t_cfg t)) (t_univ t) (m02_init (t_init t)) (t_items t) 0%N
+  else (1%N, 9%N).
 
 Definition check (t : trace) : verdict := (diff t, c02_monitor t, 0%N).
 Definition check_all (ts : list trace) : list verdict := map check ts.
@@ -196,7 +214,4 @@ Definition call_addrs2 (cl : call) : list addr :=
   | VDeposit _ _ _ r f o | VMint _ _ _ r f o | VWithdraw _ _ r f o | VRedeem _ _ r f o => [r; f; o]
   | _ => []
   end.
-Fixpoint nodupb (l : list addr) : bool :=
-  match l with [] => true | a :: r => negb (mem a r) && nodupb r end.
-Definition wf_calls (univ : list addr) (cs : list call) : bool :=
-  nodupb univ && forallb (fun cl => forallb (fun a => mem a univ) (call_addrs2 cl)) cs.
+Definition wf_calls (univ : list addr) (cs : list call) : bool := wf_calls_all univ cs.
